@@ -91,6 +91,13 @@ def case(draw, tier="quick"):
     # the executing update carries a *different* book
     atb2, atl2 = draw(gen.book_side_pair(nt, max(3, min(nt - 4, mid + draw(st.integers(-6, 6)))), max_levels=4))
     steps.append({"dt": 1000, "k": "book", "rc": [{"r": ri, "atb": atb2, "atl": atl2}]})
+    if ri == 0 and draw(st.integers(0, 4)) == 0:
+        # starting-price market: the market turns in-play and the starting price is reconciled while the order may
+        # still rest (keep-in-play orders survive the turn): a LIMIT order is never converted to a starting-price bet
+        spec["bsp_market"] = True
+        op["pers"] = draw(st.sampled_from(["PERSIST", "PERSIST", "LAPSE"]))
+        sp = prices[max(0, min(nt - 1, tick + draw(st.sampled_from([-40, -15, 15, 40]))))]
+        steps.append({"dt": 1000, "k": "inplay", "status": "OPEN", "bet_delay": 1, "bump": True, "bsp": [sp, 3.0]})
     for _ in range(draw(st.integers(0, 6))):
         if draw(st.integers(0, 3)) == 0:
             a, b = draw(gen.book_side_pair(nt, max(3, min(nt - 4, mid + draw(st.integers(-6, 6)))), max_levels=3))
@@ -145,6 +152,8 @@ def check(sc):
     classes = {"side:" + side, "fok" if fok else "plain", "bpe-on" if bpe else "bpe-off"}
     if shared_package:
         classes.add("package-shared-with-order-completed-in-flight")
+    if spec.get("bsp_market"):
+        classes.add("starting-price-reconciled-while-resting")
     if ri:
         classes.add("handicap-line-0.0-listed-second")
     if full:
@@ -282,7 +291,7 @@ def check_resting(sc):
         allowed = Fraction(0)
         chunks = 0
         for u in range(ack, len(ups)):
-            delta = ups[u].traded_delta[0]
+            delta = ups[u].traded_delta[sc.get("_ri", 0)]
             el = {p: v for p, v in delta.items() if c06.eligible(side, limit, p)}
             allowed += sum(Fraction(str(v)) for v in el.values()) / 2
             chunks += len(el)
